@@ -27,6 +27,7 @@ type Obligation struct {
 	vc       *VC
 	Note     string
 	Watch    []WatchTerm
+	Where    string // source position of the instruction the obligation was generated at
 }
 
 type FnCtx struct {
@@ -150,8 +151,42 @@ func (c *FnCtx) addObl(class, label string, props []string, st *State, goal Term
 		props = c.props
 	}
 	o := &Obligation{Name: name, Class: class, Props: props, Hyp: st.pc, Goal: goal, NAsserts: len(c.vc.asserts), Clause: cl, Kind: "prove", vc: c.vc, FuncKey: c.eng.funcKey(c.fn)}
+	o.Where = c.whereNow()
 	c.obls = append(c.obls, o)
 	return o
+}
+
+// whereNow: file:line of the instruction being executed (or of the nearest earlier instruction
+// of its block that has a position), relative to the repository.
+func (c *FnCtx) whereNow() string {
+	in := c.curInstr
+	if in == nil || in.Block() == nil {
+		return ""
+	}
+	pos := in.Pos()
+	if !pos.IsValid() {
+		if v, ok := in.(ssa.Value); ok {
+			_ = v
+		}
+		instrs := in.Block().Instrs
+		idx := -1
+		for i, x := range instrs {
+			if x == in {
+				idx = i
+			}
+		}
+		for i := idx - 1; i >= 0 && !pos.IsValid(); i-- {
+			pos = instrs[i].Pos()
+		}
+		for i := idx + 1; i < len(instrs) && !pos.IsValid(); i++ {
+			pos = instrs[i].Pos()
+		}
+	}
+	if !pos.IsValid() {
+		return ""
+	}
+	p := c.eng.prog.Fset.Position(pos)
+	return fmt.Sprintf("%s:%d", strings.TrimPrefix(p.Filename, "/repo/"), p.Line)
 }
 
 // safety obligation or assumption depending on `checks`.
@@ -981,6 +1016,20 @@ func (c *FnCtx) execInstr(fr *Frame, st *State, instr ssa.Instruction) {
 				} else if res != nil && x.Common().Signature().Results().Len() == 1 {
 					results["opResult"] = res
 					resTypes["opResult"] = x.Common().Signature().Results().At(0).Type()
+				}
+				// arg0, arg1, ...: the actual arguments of the call (as in call-site assertions)
+				{
+					cc := x.Common()
+					k := 0
+					if cc.IsInvoke() {
+						results["arg0"] = c.val(fr, st, cc.Value)
+						resTypes["arg0"] = cc.Value.Type()
+						k = 1
+					}
+					for j, a := range cc.Args {
+						results[fmt.Sprintf("arg%d", j+k)] = c.val(fr, st, a)
+						resTypes[fmt.Sprintf("arg%d", j+k)] = a.Type()
+					}
 				}
 				c.ogResultTypes = resTypes
 				c.ogApplyAfters(fr, st, key, TTrue, results)
